@@ -178,14 +178,18 @@ theorem join_filtered (cfg : Cfg) (F : List String) (srv : Server) (c rid ots : 
     · unfold SFiltered
       by_cases hv : cfg.vikja = true <;> by_cases ho : cfg.odal = true <;>
         simp [hv, ho, filterF_cons, keepMsg, Out.flagClass]
-    · rw [serverLeave_filtered]
-      rcases srv.leave (cfg.withFlags []) s p with ⟨srv', ds⟩
-      simp only []
-      have := joinFresh_filtered cfg F srv' c rid ots t hint
-      unfold SFiltered at this ⊢
-      rw [this]
-      rcases srv'.joinFresh (cfg.withFlags []) c rid ots t hint with ⟨a, b, o⟩
-      simp
+    · split
+      · unfold SFiltered
+        by_cases hv : cfg.vikja = true <;> by_cases ho : cfg.odal = true <;>
+          simp [hv, ho, filterF_cons, keepMsg, Out.flagClass]
+      · rw [serverLeave_filtered]
+        rcases srv.leave (cfg.withFlags []) s p with ⟨srv', ds⟩
+        simp only []
+        have := joinFresh_filtered cfg F srv' c rid ots t hint
+        unfold SFiltered at this ⊢
+        rw [this]
+        rcases srv'.joinFresh (cfg.withFlags []) c rid ots t hint with ⟨a, b, o⟩
+        simp
 
 theorem handleReq_filtered (cfg : Cfg) (F : List String) (srv : Server) (c : Nat) (r : Req) (hint : Nat) :
     SFiltered F (srv.handleReq (cfg.withFlags F) c r hint) (srv.handleReq (cfg.withFlags []) c r hint) := by
